@@ -131,6 +131,37 @@ def _tags_for_line(unit, lineno):
     return tags, None
 
 
+def _owner(spec):
+    """`.. > impl<'a> Tr for a::b::Ty<'a> > fn f` -> 'Ty' (None for free functions)"""
+    segs = re.split(r'\s+>\s+', spec.path.strip())
+    for sg in reversed(segs[:-1]):
+        sg = sg.strip()
+        if sg.startswith('impl'):
+            t = re.sub(r'^impl\s*(<[^>]*>)?\s*', '', sg)
+            if ' for ' in t:
+                t = t.split(' for ', 1)[1]
+            t = re.sub(r'<.*$', '', t.strip())
+            t = t.split('::')[-1].strip().lstrip('&').strip()
+            return re.sub(r'[^A-Za-z0-9_]', '', t) or None
+        if sg.startswith('mod '):
+            continue
+    return None
+
+
+def _locate(u, d, ambiguous):
+    """(fn label, tags, item path) of a diagnostic: a span inside an extracted item wins over the primary span, so a
+    failed clause of a *trait* contract is attributed to the impl function whose body failed it"""
+    spans = [d.primary] + list(d.secondary) if d.primary else list(d.secondary)
+    for sp in spans:
+        ln = sp.get('line_start', 0)
+        spec, it = u.item_at(ln)
+        if spec is not None and it.kind == 'fn':
+            own = _owner(spec)
+            label = '%s::%s' % (own, it.name) if (own and it.name in ambiguous) else it.name
+            return label, list(spec.tags), '%s :: %s' % (spec.crate, spec.path)
+    return None, None, None
+
+
 def scan_trusted(unit):
     found = []
     lines = unit.lines
@@ -234,6 +265,11 @@ def verify_unit(name, sources, rlimit=None, keep_dir=None, extra=None):
                 keep += [d for d in r2.diags if d.level == 'error']
         diags = keep
     sent_fail = False
+    counts = {}
+    for spec, it, a, b in u.items:
+        if it.kind == 'fn':
+            counts[it.name] = counts.get(it.name, 0) + 1
+    ambiguous = set(k for k, v in counts.items() if v > 1)
     for d in diags:
         if d.level != 'error':
             continue
@@ -251,6 +287,12 @@ def verify_unit(name, sources, rlimit=None, keep_dir=None, extra=None):
         origin = u.origin(ln)
         line_text = norm(u.lines[ln - 1].text) if 1 <= ln <= len(u.lines) else ''
         tags, ipath = _tags_for_line(u, ln)
+        lfn, ltags, lpath = _locate(u, d, ambiguous)
+        if lfn is not None:
+            fn = lfn
+            f.fn = fn
+            if ipath is None:
+                tags, ipath = ltags, lpath
         f.tags = tags
         f.src_path = ipath
         short = _short(d.message)
